@@ -274,6 +274,30 @@ def shared_child_scenarios(ctx):
     ctx.stat("shared_child_checks", n)
 
 
+def ignore_returns_element(ctx):
+    """`expr.ignore(comment)` is used as an expression throughout the property (and by this check): every class's ignore() must
+    hand back the element it configured (F-09c: SkipTo.ignore returned None; fixed in /repo c1db87a)"""
+    import pyparsing as pp
+    W = lambda: pp.Word("ab")
+    mk = {"Word": W, "Literal": lambda: pp.Literal("a"), "And": lambda: W() + W(), "MatchFirst": lambda: W() | "1", "Or": lambda: W() ^ "1",
+          "Each": lambda: W() & pp.Literal("1"), "Opt": lambda: pp.Opt(W()), "ZeroOrMore": lambda: pp.ZeroOrMore(W()), "OneOrMore": lambda: pp.OneOrMore(W()),
+          "Group": lambda: pp.Group(W()), "Suppress": lambda: pp.Suppress(W()), "Combine": lambda: pp.Combine(W() + W()), "Dict": lambda: pp.Dict(pp.Group(W() + W())),
+          "Located": lambda: pp.Located(W()), "NotAny": lambda: ~W(), "FollowedBy": lambda: pp.FollowedBy(W()), "PrecededBy": lambda: pp.PrecededBy(W()),
+          "SkipTo": lambda: pp.SkipTo(pp.LineEnd()), "SkipTo.include": lambda: pp.SkipTo(W(), include=True), "Forward": lambda: pp.Forward(W()),
+          "DelimitedList": lambda: pp.DelimitedList(W()), "AtLineStart": lambda: pp.AtLineStart(W()), "Regex": lambda: pp.Regex("a+"),
+          "QuotedString": lambda: pp.QuotedString('"'), "IndentedBlock": lambda: pp.IndentedBlock(W()), "nested_expr": lambda: pp.nested_expr()}
+    for name, f in mk.items():
+        for how, cm in (("element", lambda: pp.c_style_comment), ("string", lambda: "#")):
+            e = f()
+            try:
+                r = e.ignore(cm())
+            except Exception as x:
+                r = x
+            ctx.case("ignore-returns:%s:%s" % (name, how), True, True)
+            if r is not e:
+                ctx.violation("ignore-returns:%s" % name, "%s.ignore(%s) returned %r instead of the element" % (name, how, r), {"kind": "ignore-returns"})
+
+
 def adjacency_scenarios(ctx):
     """tokens that look at their neighbours are sensitive to REMOVING whitespace between tokens (F-09)"""
     import pyparsing as pp
@@ -316,6 +340,7 @@ def correspond(ctx):
             nchecks += guarded(lambda: metamorphic(ctx, name, e, e_ign, s, {"example": name}), 20.0) or 0
     combine_converse(ctx)
     shared_child_scenarios(ctx)
+    ignore_returns_element(ctx)
     stats = {}
     recs = corr.run_groups(groups, stats=stats)
     ctx.coverage_extra["class_histogram"] = stats.get("classes", {})
@@ -367,6 +392,13 @@ def replay(ctx, obj):
         c2 = vlib.Ctx(PROP, "quick", 0)
         c2.known = {}
         adjacency_scenarios(c2)
+        for v in c2.violations:
+            print(v["what"])
+        return not c2.violations
+    if r.get("kind") == "ignore-returns":
+        c2 = vlib.Ctx(PROP, "quick", 0)
+        c2.known = {}
+        ignore_returns_element(c2)
         for v in c2.violations:
             print(v["what"])
         return not c2.violations
